@@ -302,10 +302,18 @@ class Taint:
             dest_t = False
             why = None
             locs = self.resolve(term)
+            full = (f.get("fn_full") or "") + " " + (f.get("resolved") or "") + " " + gen
+            small = ("for u32", "for u16", "for u8", "<u32 as", "<u16 as", "<u8 as", "TryInto<u32>", "TryInto<u16>", "TryInto<u8>")
             if "ethnum" in gen and last in NARROW_SRC:
                 dest_t = True
                 why = f"source: {last} at {F.loc(term['span'])} in {name}"
                 self.sources.append((name, last, term["span"]))
+            elif last in ("try_from", "try_into") and ("ethnum::U256" in full or "ethnum::uint::U256" in full or "ethnum::I256" in full) and not any(x in full for x in small):
+                # a checked conversion of a 256-bit constant to a 64-bit (or wider) native integer bounds nothing useful:
+                # the result is as attacker-chosen as an `as_usize()` would be
+                dest_t = True
+                why = f"source: checked conversion of a 256-bit constant to a wide native integer at {F.loc(term['span'])} in {name}"
+                self.sources.append((name, "try_from(wide)", term["span"]))
             elif locs:
                 for callee in locs:
                     cm = self.mirs.get(callee)
